@@ -247,17 +247,15 @@ theorem kern_of_ansSeq {ws : Nat → World} {i0 : Nat} {H : Hist} (hans : AnsSeq
   exact ⟨ws (i0 + k), hans k hk⟩
 
 theorem post_failWith {α : Type} (fds : List Fd) (e : Nat) (Q : Except Err α → Prop)
-    (h1 : Q (.error (.os e))) (h2 : ∀ s, Q (.error (.panic s))) : Post Kern (Sys.failWith (α := α) fds e) Q := by
+    (h1 : Q (.error (.os e))) : Post Kern (Sys.failWith (α := α) fds e) Q := by
   unfold Sys.failWith
   induction fds with
   | nil => exact h1
   | cons fd rest ih =>
     unfold Sys.failWith.go
     refine Post.bind (Post.any _) ?_
-    intro ok _
-    cases ok with
-    | true => exact ih
-    | false => exact h2 _
+    intro _ _
+    exact ih
 
 theorem post_statx (d : Fd) (hd : 0 ≤ d) (n : Bytes) :
     Post Kern (Sys.statx d n STATX_WANT) (fun x => ∃ id, x = .ok (STATX_WANT, id)) := by
@@ -338,20 +336,16 @@ theorem post_intoPath : Post Kern (Procfs.intoPath .threadSelf procRoot) (fun x 
     rw [Procfs.intoPath.probe]
     simp only [M.bind_def]
     refine Post.mbind (Q' := fun x => x = .ok true) ?_ ?_ ?_
-    · unfold M.isOk
-      simp only [M.bind_def]
-      refine Post.mbind (Q' := fun x => ∃ st, x = .ok (.ok st)) (Post.try' ?_) ?_ ?_
-      · unfold Sys.fstatat
-        have h0 : Sys.hotfix procRoot = .ok () := hotfix_tree (by decide)
-        simp only [M.bind_def, M.liftM_except, h0, M.ofExcept_ok, M.bind_ok]
-        refine Post.mcall ?_
-        rintro r ⟨w, rfl⟩
-        have ha : w.answer (.fstatat procRoot b!"thread-self" STAT_FLAGS) = .nums [S_IFLNK ||| 0o777, 0, 3, 5] := by
-          simp [World.answer, AT_FDCWD, procRoot]
-        rw [ha]
-        exact ⟨_, rfl⟩
-      · rintro _ ⟨st, he⟩; cases he; rfl
-      · rintro _ ⟨_, he⟩; cases he
+    · show Post Kern (M.lift (Sys.existsAt procRoot b!"thread-self")) _
+      refine Post.lift ?_
+      unfold Sys.existsAt
+      have h0 : Sys.hotfix procRoot = .ok () := hotfix_tree (by decide)
+      rw [h0]
+      rintro r ⟨w, rfl⟩
+      have ha : w.answer (.fstatat procRoot b!"thread-self" STAT_FLAGS) = .nums [S_IFLNK ||| 0o777, 0, 3, 5] := by
+        simp [World.answer, AT_FDCWD, procRoot]
+      rw [ha]
+      rfl
     · intro b hb; cases hb; rfl
     · intro _ he; cases he
   · rintro _ ⟨_, he⟩; cases he
@@ -474,7 +468,7 @@ theorem answer_ts_fdDir (w : World) (fl rs : Nat) :
 
 /-- what reading a link can say -/
 def ReadOut (x : Except Err Bytes) : Prop :=
-  (∃ b, x = .ok b) ∨ x = .error (.os EXDEV) ∨ x = .error (.os ENAMETOOLONG) ∨ ∃ s, x = .error (.panic s)
+  (∃ b, x = .ok b) ∨ x = .error (.os EXDEV) ∨ x = .error (.os ENAMETOOLONG)
 
 theorem post_readlinkat_odd (d : Fd) (hd : 0 ≤ d) (hodd : d % 2 = 1) : Post Kern (Sys.readlinkat d []) ReadOut := by
   unfold Sys.readlinkat
@@ -488,7 +482,7 @@ theorem post_readlinkat_odd (d : Fd) (hd : 0 ≤ d) (hodd : d % 2 = 1) : Post Ke
   rw [hb]
   dsimp only
   split
-  · exact post_failWith _ _ _ (Or.inr (Or.inr (Or.inl rfl))) (fun s => Or.inr (Or.inr (Or.inr ⟨s, rfl⟩)))
+  · exact post_failWith _ _ _ (Or.inr (Or.inr rfl))
   · exact Or.inl ⟨b, rfl⟩
 
 /-- the probe of `open_follow` on `thread-self/fd/<f>` for an even `f`: it never says "not a symlink" -/
@@ -501,31 +495,28 @@ theorem post_readlinkH (m : Nat) (f : Fd) (h0 : 0 ≤ f) (h2 : f % 2 = 0) :
   · intro link hl
     have hl' : link = magic f := by rcases hl with hl | hl <;> cases hl; rfl
     subst hl'
-    refine Post.mbind (Q' := fun x => (∃ y, x = .ok y ∧ ReadOut y) ∨ ∃ s, x = .error (.panic s)) (Post.try' ?_) ?_ ?_
+    refine Post.mbind (Q' := fun x => ∃ y, x = .ok y ∧ ReadOut y) (Post.try' ?_) ?_ ?_
     · refine (post_readlinkat_odd (magic f) hm.1 hm.2).mono ?_
       intro x hx
       cases x with
-      | ok b => exact Or.inl ⟨_, rfl, hx⟩
+      | ok b => exact ⟨_, rfl, hx⟩
       | error e =>
-        refine ⟨fun hf => ?_, fun _ => Or.inl ⟨_, rfl, hx⟩⟩
-        rcases hx with ⟨_, he⟩ | he | he | ⟨s, he⟩ <;> cases he
+        refine ⟨fun hf => ?_, fun _ => ⟨_, rfl, hx⟩⟩
+        rcases hx with ⟨_, he⟩ | he | he <;> cases he
         · exact absurd hf (by decide)
         · exact absurd hf (by decide)
-        · exact Or.inr ⟨s, rfl⟩
-    · rintro r (⟨y, he, hy⟩ | ⟨_, he⟩)
-      · cases he
-        refine Post.mbind (Q' := fun x => x = .ok ()) ?_ ?_ ?_
-        · show Post Kern (M.lift (Sys.close (magic f))) _
-          exact Post.lift ((Post.any _).mono (fun _ _ => rfl))
-        · intro _ _
-          cases r with
-          | ok b => exact hy
-          | error e => exact hy
-        · intro _ he; cases he
-      · cases he
-    · rintro _ (⟨_, he, _⟩ | ⟨s, he⟩)
-      · cases he
-      · cases he; exact Or.inr (Or.inr (Or.inr ⟨s, rfl⟩))
+    · rintro r ⟨y, he, hy⟩
+      cases he
+      refine Post.mbind (Q' := fun x => x = .ok ()) ?_ ?_ ?_
+      · show Post Kern (M.lift (Sys.close (magic f))) _
+        exact Post.lift ((Post.any _).mono (fun _ _ => rfl))
+      · intro _ _
+        cases r with
+        | ok b => exact hy
+        | error e => exact hy
+      · intro _ he; cases he
+    · rintro _ ⟨_, he, _⟩
+      cases he
   · rintro e (he | he)
     · cases he
     · cases he; exact Or.inr (Or.inl rfl)
@@ -548,7 +539,7 @@ theorem post_openatFollow_fdDir (f : Fd) (h0 : 0 ≤ f) (fl : Nat) (hnf : hasAll
     cases he
     rfl
   | error e =>
-    exact post_failWith _ _ _ (fun fd he => by cases he) (fun s fd he => by cases he)
+    exact post_failWith _ _ _ (fun fd he => by cases he)
 
 theorem post_close_then {β : Type} (d : Fd) (f : Unit → M β) (Q : Except Err β → Prop) (h : Post Kern (f ()) Q) :
     Post Kern (M.bind' (liftM (Sys.close d) : M Unit) f) Q := by
@@ -599,31 +590,26 @@ theorem post_openFollowH (m : Nat) (f : Fd) (h0 : 0 ≤ f) (h2 : f % 2 = 0) (fl 
   split
   · exact verr _
   · simp only [M.bind_def]
-    refine Post.mbind (Q' := fun x => (∃ y, x = .ok y ∧ ReadOut y) ∨ ∃ s, x = .error (.panic s)) (Post.try' ?_) ?_ ?_
+    refine Post.mbind (Q' := fun x => ∃ y, x = .ok y ∧ ReadOut y) (Post.try' ?_) ?_ ?_
     · refine (post_readlinkH m f h0 h2).mono ?_
       intro x hx
       cases x with
-      | ok b => exact Or.inl ⟨_, rfl, hx⟩
+      | ok b => exact ⟨_, rfl, hx⟩
       | error e =>
-        refine ⟨fun hf => ?_, fun _ => Or.inl ⟨_, rfl, hx⟩⟩
-        rcases hx with ⟨_, he⟩ | he | he | ⟨s, he⟩ <;> cases he
+        refine ⟨fun hf => ?_, fun _ => ⟨_, rfl, hx⟩⟩
+        rcases hx with ⟨_, he⟩ | he | he <;> cases he
         · exact absurd hf (by decide)
         · exact absurd hf (by decide)
-        · exact Or.inr ⟨s, rfl⟩
-    · rintro r (⟨y, he, hy⟩ | ⟨_, he⟩)
-      · cases he
-        rcases hy with ⟨b, rfl⟩ | rfl | rfl | ⟨s, rfl⟩
-        · exact post_openFollowTail m f h0 fl hnf
-        · dsimp only
-          rw [if_neg (by decide), if_neg (by decide)]
-          exact verr _
-        · dsimp only
-          rw [if_neg (by decide), if_pos rfl]
-          exact post_openFollowTail m f h0 fl hnf
-        · dsimp only
-          rw [if_neg (by simp), if_neg (by simp)]
-          exact verr _
-      · cases he
+    · rintro r ⟨y, he, hy⟩
+      cases he
+      rcases hy with ⟨b, rfl⟩ | rfl | rfl
+      · exact post_openFollowTail m f h0 fl hnf
+      · dsimp only
+        rw [if_neg (by decide), if_neg (by decide)]
+        exact verr _
+      · dsimp only
+        rw [if_neg (by decide), if_pos rfl]
+        exact post_openFollowTail m f h0 fl hnf
     · intro e _; exact verr e
 
 /-- **`reopen` of an even descriptor, whatever the worlds of its moments look like**: the result, if any, is the
